@@ -40,6 +40,8 @@ for d in sorted(glob.glob("/verif/seeded/*/")):
     out = {}
     if not checks:
         continue
+    if os.environ.get("CAT_FIRST_ONLY"):
+        checks = checks[:1]
     for c in checks:
         r = subprocess.run([os.environ.get("VX_CHECK", "/verif/check"), c], env=env, capture_output=True, text=True)
         first = next((l for l in r.stdout.splitlines() if l.startswith("VIOLATION")), "")
